@@ -14,14 +14,14 @@ file and mapped, format specific or selected by the wrappers (`wrapFromBytes` yi
 No size bound other than the global "buffers are shorter than 4 GiB" where `rva + 2` is computed.
 
 Findings recorded here (mirrored by the model, see the theorems of the same name):
-* `C09_missing_entry_partial` / `C09_missing_entry_not_null`: an image whose data-directory array is
-  too short to have the import (IAT) entry answers `Bounds`, not `Null` as the property's wording
-  ("an image without the directory reports the null error") and the documentation of `Pe::imports` ask.
 * `C09_terminator_readings_differ`: the scan stops at the first descriptor with `FirstThunk = 0`, not at
   the first all-zero descriptor; the two readings agree exactly on well-formed directories
   (`C09_terminator_readings`).
 * `C09_decode_high_bits_ignored`: a PE32+ by-name thunk is truncated to its low 32 bits (`va as Rva`),
   bits 32..62 are ignored rather than rejected.
+A former finding is gone: an image whose data-directory array is too short to have the import (IAT)
+entry used to answer `Bounds`; since the fix in the code it answers `Null` as the property's wording
+("an image without the directory reports the null error") asks — `C09_missing_entry_null`.
 -/
 namespace Pelite.Imports
 open Pelite Pelite.Pe
@@ -313,12 +313,13 @@ theorem C09_null_dir (v : View) (sz : Nat) :
     rw [iat_eq_spec]; unfold specIat; rw [hd']; dsimp only
     rw [(C05_null v _ _).1]
 
-/-- The strongest true variant of "an image without the directory reports the null error" for images
-whose data-directory array is too short to contain the entry (`NumberOfRvaAndSizes ≤ 1` resp. `≤ 12`):
-the answer is the error `Bounds` — an error, never an empty or bogus table, but not `Null`. -/
-theorem C09_missing_entry_partial (v : View) :
-    (v.dataDir 1 = none → tryFrom v = .err .bounds) ∧
-    (v.dataDir 12 = none → iatTryFrom v = .err .bounds) := by
+/-- **No data-directory entry ⇒ `Null`**: "an image without the directory reports the null error" also
+holds for images whose data-directory array is too short to contain the entry (`NumberOfRvaAndSizes ≤ 1`
+resp. `≤ 12`): the import directory resp. the IAT is absent and the answer is `Null` — as for a zero
+RVA (`C09_null_dir`), never `Bounds`, never an empty or bogus table. -/
+theorem C09_missing_entry_null (v : View) :
+    (v.dataDir 1 = none → tryFrom v = .err .null) ∧
+    (v.dataDir 12 = none → iatTryFrom v = .err .null) := by
   refine ⟨?_, ?_⟩
   · intro hd
     have hd' : v.dataDir dirImport = none := hd
@@ -496,13 +497,13 @@ example : IsImportDir demoBytes 288 76 1 ∧ IsImportDirZ demoBytes 288 76 1 ∧
     have : i = 0 ∨ i = 1 ∨ i = 2 ∨ i = 3 ∨ i = 4 := by omega
     rcases this with rfl | rfl | rfl | rfl | rfl <;> decide +kernel
 
-/-- The same image with `NumberOfRvaAndSizes` patched to 1 is still accepted, has no import entry in
-its data-directory array, and `imports()` answers `Bounds` where the property's wording asks for
-`Null` (counterexample to the unqualified statement; `C09_missing_entry_partial` is the true variant). -/
-theorem C09_missing_entry_not_null :
+/-- The hypotheses of `C09_missing_entry_null` are satisfiable: the same image with
+`NumberOfRvaAndSizes` patched to 1 is still accepted, has neither an import nor an IAT entry in its
+data-directory array, and `imports()` / `iat()` answer `Null`. -/
+example :
     let img : Img := ⟨demoBytes.setIfInBounds 180 1, 0⟩
-    ∃ v, fromBytes .pe32 .view img = .ok v ∧ v.dataDir 1 = none ∧ tryFrom v = .err .bounds ∧
-      tryFrom v ≠ .err .null := by
+    ∃ v, fromBytes .pe32 .view img = .ok v ∧ v.dataDir 1 = none ∧ v.dataDir 12 = none ∧
+      tryFrom v = .err .null ∧ iatTryFrom v = .err .null := by
   intro img
   refine ⟨⟨img, .pe32, .view, 0x400000⟩, (fromBytes_ok_iff _ _ _ _).2 ⟨by decide +kernel,
     by rw [show imageBaseField .pe32 img.bytes = 0x400000 by decide +kernel]⟩, ?_⟩
